@@ -71,7 +71,7 @@ BUNDLED = [
 FOREIGN = ["_support/ed448.key"]            # bundled, but of a format no loader class claims
 
 MAGIC = b"openssh-key-v1\x00"
-KDF_CAP = 64                                # bcrypt rounds above this are not run (see kdf_stub)
+KDF_CAP = 32                                # bcrypt rounds above this are not run (see kdf_stub)
 
 
 class DriverError(Exception):
@@ -1111,6 +1111,9 @@ def mutate_file(doc, cls, rnd, ctx):
         return raw, "untouched"
     if cls == "empty":
         return b"", "empty file"
+    if cls.startswith("rand_"):
+        out, det = rand_edit(raw, 0, len(raw), cls, rnd, rnd.choice(ctx["docs"]).raw)
+        return out, "anywhere in the file: " + det
     if cls == "whitespace_only":
         return rnd.choice([b"\n", b" ", b"\n\n\n", b"\t\n \n", b"\r\n"]), "whitespace only"
     junk = rnd.choice([b"Bag Attributes\n    friendlyName: x\n", b"# my key\n", b"\n\n", b"garbage " * 5 + b"\n",
@@ -1260,7 +1263,7 @@ def load(cls_name, data, password, entry, path):
     cls = getattr(paramiko, cls_name)
     out = {"outcome": "raised", "entry": entry, "exc": {"cls": "-", "mro": [], "site": "-", "text": ""}, "key": None}
     signal.signal(signal.SIGALRM, _alarm)
-    signal.setitimer(signal.ITIMER_REAL, 20.0)
+    signal.setitimer(signal.ITIMER_REAL, 10.0)
     try:
         try:
             if entry == "fobj":
@@ -1321,45 +1324,177 @@ def run_one(case, doc, rnd, ctx, path, uniform=False):
     return rec
 
 
-# ----------------------------------------------------------------------------- worker entry (forked)
+# ----------------------------------------------------------------------------- the stage path, observed
+
+VOCAB = ("_read_private_key", "_read_private_key_pem", "_read_private_key_openssh", "_uint32_cstruct_unpack",
+         "_unpad_openssh", "_decode_key", "_parse_signing_key_data")
+# which function of the loader a stage of the spec's Path is entered through (stages without an entry are parsed
+# inline by the function of an earlier stage)
+STAGE_CALL = {
+    "pem": {"dispatch": "_read_private_key", "headers": "_read_private_key_pem", "der": "_decode_key"},
+    "openssh": {"dispatch": "_read_private_key", "body": "_read_private_key_openssh", "kdf_header": "_uint32_cstruct_unpack",
+                "blobs": "_uint32_cstruct_unpack", "kdf": "_uint32_cstruct_unpack", "checkints": "_uint32_cstruct_unpack",
+                "unpad": "_unpad_openssh", "keyfields": "_decode_key"},
+    "ed25519": {"dispatch": "_read_private_key", "headers": "_read_private_key_pem", "magic": "_parse_signing_key_data",
+                "unpad": "_unpad_openssh"},
+}
+
+
+def expected_calls(cls_name, fmt, path):
+    fam = "ed25519" if cls_name == "Ed25519Key" else ("pem" if fmt in ("pem", "pem_enc") else "openssh")
+    return [STAGE_CALL[fam][s] for s in path if s in STAGE_CALL[fam]]
+
+
+def observed_calls(cls_name, doc, path):
+    """the loader functions entered, in order, while cls_name loads the intact file (up to the first _decode_key)"""
+    import sys
+    with open(path, "wb") as f:
+        f.write(doc.raw)
+    calls = []
+    pdir = os.path.join(REPO, "paramiko") + os.sep
+
+    def prof(frame, event, arg):
+        if event == "call" and frame.f_code.co_name in VOCAB and os.path.abspath(frame.f_code.co_filename).startswith(pdir):
+            calls.append(frame.f_code.co_name)
+    sys.setprofile(prof)
+    try:
+        getattr(paramiko, cls_name).from_private_key_file(path, password=doc.password)
+    except Exception:
+        pass
+    finally:
+        sys.setprofile(None)
+    if "_decode_key" in calls:
+        calls = calls[:calls.index("_decode_key") + 1]
+    return calls
+
+
+# ----------------------------------------------------------------------------- workers (forked)
 
 CTX = {}          # set by the check before the workers are forked: cases, docs, donors, foreign, workdir
 
 
 def setup():
     bcrypt.kdf = kdf_stub
+    from cryptography.hazmat.primitives.serialization import ssh as cssh      # PKey.from_path goes through this reader
+    cssh._bcrypt_kdf = kdf_stub
 
 
-def run_slice(args):
-    """jobs: list of (case index | -1 for a uniform edit, source index, rep, must) -> list of records / errors"""
-    jobs, seed, deadline, wid = args
+def job_record(job, seed, ctx, path):
+    ci, si, rep, must = job
+    doc = ctx["docs"][si]
+    rnd = random.Random("%d|%d|%d|%d" % (seed, ci, si, rep))
+    if ci < 0:
+        case = {"cls": NATURAL[doc.kt] if rep % 7 else rnd.choice(sorted(set(NATURAL.values()))),
+                "kt": doc.kt, "fmt": doc.fmt, "idx": 0, "class": "-", "pw": ("right" if doc.password else "none")}
+        return run_one(case, doc, rnd, ctx, path, uniform=True)
+    return run_one(ctx["cases"][ci], doc, rnd, ctx, path)
+
+
+def worker_main(jobs, seed, deadline, wid, outpath):
+    """forked child: one line 'S <job>' before and one line 'R <result>' after every job, so that the parent can
+    tell which input took the interpreter down if the process dies (a Rust panic in a crypto back end aborts)"""
+    import json
     setup()
     ctx = CTX
+    err = os.open(outpath + ".stderr", os.O_WRONLY | os.O_CREAT | os.O_APPEND, 0o600)
+    os.dup2(err, 2)
     path = os.path.join(ctx["workdir"], "probe_%d_%d.key" % (os.getpid(), wid))
-    out = []
     extended = False
-    for (ci, si, rep, must) in jobs:
-        if not must and not extended:
-            extended = True
-            if deadline:
-                deadline = max(deadline, time.time() + 4.0)
-        if deadline and not must and time.time() > deadline:
-            continue
-        doc = ctx["docs"][si]
-        rnd = random.Random("%d|%d|%d|%d" % (seed, ci, si, rep))
-        try:
-            if ci < 0:
-                case = {"cls": NATURAL[doc.kt] if rep % 7 else rnd.choice(sorted(set(NATURAL.values()))),
-                        "kt": doc.kt, "fmt": doc.fmt, "idx": 0, "class": "-",
-                        "pw": ("right" if doc.password else "none")}
-                rec = run_one(case, doc, rnd, ctx, path, uniform=True)
-            else:
-                rec = run_one(ctx["cases"][ci], doc, rnd, ctx, path)
-            out.append((ci, si, rep, rec, None))
-        except Exception as e:
-            out.append((ci, si, rep, None, "".join(traceback.format_exception(type(e), e, e.__traceback__))[-1200:]))
+    with open(outpath, "a") as out:
+        for job in jobs:
+            must = job[3]
+            if not must and not extended:
+                extended = True                 # the fixed stratum is done: the sampled part gets a few seconds at least
+                if deadline:
+                    deadline = max(deadline, time.time() + 4.0)
+            if deadline and not must and time.time() > deadline:
+                continue
+            out.write("S\t%s\n" % json.dumps(job))
+            out.flush()
+            try:
+                rec, e = job_record(job, seed, ctx, path), None
+            except Exception as ex:
+                rec, e = None, "".join(traceback.format_exception(type(ex), ex, ex.__traceback__))[-1200:]
+            out.write("R\t%s\n" % json.dumps([list(job), rec, e]))
+            out.flush()
     try:
         os.unlink(path)
     except OSError:
         pass
-    return out
+    os._exit(0)
+
+
+def run_parallel(jobs, seed, deadline, nworkers, workdir):
+    """-> list of (job, record | None, driver error | None); a job that killed its worker comes back as a record with
+    outcome 'crashed' (re-derived in the parent without running the loader) and the rest of the slice is resumed"""
+    import json
+    import multiprocessing
+    mp = multiprocessing.get_context("fork")
+    results = []
+    pending = [(k, jobs[k::nworkers]) for k in range(nworkers)]
+    gen = 0
+    while pending:
+        procs = []
+        for wid, sl in pending:
+            outpath = os.path.join(workdir, "worker_%d_%d.jsonl" % (gen, wid))
+            p = mp.Process(target=worker_main, args=(sl, seed, deadline, wid, outpath))
+            p.start()
+            procs.append((wid, sl, outpath, p))
+        pending = []
+        for wid, sl, outpath, p in procs:
+            p.join()
+            started, done = None, 0
+            if os.path.exists(outpath):
+                for line in open(outpath):
+                    tag, body = line.rstrip("\n").split("\t", 1)
+                    if tag == "S":
+                        started = json.loads(body)
+                    else:
+                        job, rec, e = json.loads(body)
+                        results.append((tuple(job), rec, e))
+                        started = None
+            if p.exitcode != 0:
+                if started is None:
+                    raise DriverError("worker %d died (exit %s) outside a job" % (wid, p.exitcode))
+                tail = ""
+                try:
+                    tail = open(outpath + ".stderr", errors="replace").read()[-6000:]
+                except OSError:
+                    pass
+                first = [ln for ln in tail.split("\n") if "panicked" in ln or "assertion" in ln or "Fatal" in ln]
+                results.append((tuple(started), {"crashed": True, "exit": p.exitcode,
+                                                 "text": " ".join(first[-2:])[:300]}, None))
+                k = [tuple(j) for j in sl].index(tuple(started))
+                rest = sl[k + 1:]
+                if rest and gen < 40:
+                    pending.append((wid, rest))
+        gen += 1
+    return results
+
+
+def crash_record(job, info, seed, ctx):
+    """the record of a job whose loader call took the worker process down: the same input is rendered again (the
+    renderers are deterministic in the seed), the loader is not called"""
+    ci, si, rep, must = job
+    doc = ctx["docs"][si]
+    rnd = random.Random("%d|%d|%d|%d" % (seed, ci, si, rep))
+    hold = {}
+
+    def fake_load(cls_name, data, password, entry, path):
+        hold.update(data=data, password=password)
+        return {"outcome": "crashed", "entry": entry, "key": None,
+                "exc": {"cls": "ProcessAbort", "mro": ["ProcessAbort"], "site": "-", "text": info.get("text", "")}}
+    real = globals()["load"]
+    globals()["load"] = fake_load
+    try:
+        if ci < 0:
+            case = {"cls": NATURAL[doc.kt] if rep % 7 else rnd.choice(sorted(set(NATURAL.values()))),
+                    "kt": doc.kt, "fmt": doc.fmt, "idx": 0, "class": "-", "pw": ("right" if doc.password else "none")}
+            rec = run_one(case, doc, rnd, ctx, os.devnull, uniform=True)
+        else:
+            rec = run_one(ctx["cases"][ci], doc, rnd, ctx, os.devnull)
+    finally:
+        globals()["load"] = real
+    rec["file_b64"] = base64.b64encode(hold["data"]).decode()
+    rec["password"] = hold["password"]
+    return rec
